@@ -5,6 +5,7 @@ World through kopf's own `AiohttpSession` credentials seam. Scripted user handle
 from __future__ import annotations
 
 import asyncio
+import json
 import functools
 from typing import Any, Callable
 
@@ -157,7 +158,10 @@ def scripted(env: Env, hid: str, script: list[Outcome], *, cursor: str | None = 
                 env.world.merge(kinds[0], body['metadata'].get('namespace'), body['metadata']['name'], out.edit,
                                 actor='foreign')
             if out.patch and 'patch' in kw:
-                _deep_update(kw['patch'], out.patch)
+                # '$rv' stands for the version of the view the handler was given (a note that differs from event to event)
+                rv_now = (body or {}).get('metadata', {}).get('resourceVersion') if body is not None else None
+                foreign_now = ((body or {}).get('status') or {}).get('foreign') if body is not None else None
+                _deep_update(kw['patch'], json.loads(json.dumps(out.patch).replace('$rv', str(rv_now)).replace('$foreign', str(foreign_now))))
             if out.addfin and 'patch' in kw:
                 import functools
                 kw['patch'].fns.append(functools.partial(_add_finalizer, name=out.addfin))
